@@ -34,7 +34,7 @@ Driver lanes of C08.
   the first outcome it does reach.
 * `c08h3life <hasBody> <trace> <kind> <obs>` — the HTTP/3 lifecycle model (`CancelH3`): replay the trace
   (`ev:<Ev>`, `act:<Act>`), cancel, explore EVERY maximal internal run; answer = the observed outcome
-  (`ret=…;read=…;closes=…;upl=…;rst=…`) if the model reaches it, else the first outcome it does reach.
+  (`ret=…;read=…;closes=…;upl=…;rst=…;stop=…`, `?` = not observed) if the model reaches it, else the first outcome it does reach.
 * `c08errclass <src> <wrappers>` — `CancelErr.rel` seen through the wrappers (`u`rl.Error,
   `n`othingWrittenError, `r`eadFromServer, `b`roken conn; `-` = none): `c=<0|1> d=<0|1> t=<0|1>`.
 -/
@@ -409,7 +409,18 @@ def h3Outcome (kind : CtxErr) (t : Req.CancelH3.St) : String :=
     | none => "-"
   let upl := if t.upl == .none || t.upl == .done then "gone" else "parked"
   "ret=" ++ ret ++ ";read=" ++ read ++ ";closes=" ++ toString t.closes ++ ";upl=" ++ upl ++
-  ";rst=" ++ (if t.send == .cancelled then "1" else "0")
+  ";rst=" ++ (if t.send == .cancelled then "1" else "0") ++
+  ";stop=" ++ (if t.recv == .cancelled then "1" else "0")
+
+/-- field-wise comparison; a `?` in the observation = the lane could not see that field -/
+def h3Matches (obs out : String) : Bool :=
+  let o := obs.splitOn ";"
+  let m := out.splitOn ";"
+  o.length == m.length &&
+  (o.zip m).all fun (a, b) => a == b ||
+    (match a.splitOn "=", b.splitOn "=" with
+     | [ka, va], [kb, _] => ka == kb && va == "?"
+     | _, _ => false)
 
 def laneH3Life : List String → String
   | [hb, tr, kind, obs] =>
@@ -422,7 +433,7 @@ def laneH3Life : List String → String
       | some k, some s =>
         let s0 := if Req.CancelH3.evGuard s (.cancel k) then Req.CancelH3.evApply s (.cancel k) else s
         let outs := (Req.CancelH3.finals 20 s0).map (h3Outcome k)
-        if outs.contains obs then obs
+        if outs.any (h3Matches obs) then obs
         else match outs with
           | o :: _ => o
           | [] => "no-outcome"
